@@ -3,8 +3,8 @@
 ENGINES = [
     {
         "name": "vloop",
-        "path": "vf/engine/vloop.py vf/engine/explore.py vf/engine/netsim.py",
-        "serves_properties": ["C04", "C05", "C06", "C07", "C08", "C09", "C10", "C19"],
+        "path": "vf/engine/vloop.py vf/engine/explore.py vf/engine/netsim.py vf/engine/dbshim.py",
+        "serves_properties": ["C04", "C05", "C06", "C07", "C08", "C09", "C10", "C11", "C19"],
         "kind_free_text": "stateless model checker for asyncio code: virtual-time BaseEventLoop stepped by hand, "
         "deviation-bounded exhaustive DFS over environment choices (segment delivery, timers, EOF/RST, cancel), "
         "replay of choice prefixes on fresh objects",
@@ -186,6 +186,22 @@ CHECKS = [
         "PDU has the right layout and arrives in the claimed session, nothing outside the range or in the skip list is sent.",
         "note": "Trusted: model ECUs, vloop, benign reply timing. Services are assumed to be probed independently (packing). Counters are read from the "
         "RESULT log lines. Not covered: hooks, power cycling, more than 3 sessions.",
+    },    {
+        "id": "C11",
+        "engine": "vloop",
+        "level": "model_checking",
+        "technique": "stateless deviation-bounded exploration of exchange histories on the real ECU client + real DBHandler (sqlite3 behind a FIFO completion shim) under a virtual-time loop: database completion timing and a cancellation/failure of the run at every iteration boundary; rows read back with plain sqlite3 and compared with a reference recorder",
+        "text": "Histories: every request kind of the ISO table (first/middle/last response value set of the generator) x {genuine positive reply, negative reply, "
+        "timeout, connection error, reply of another service, truncated reply}; all sequences of length <= 3 (quick) / 4 (thorough) over a 14-letter "
+        "state-relevant alphabet (DSC ok/refused, SecurityAccess seed/key, ECUReset, F186 reads, plain read, suppressed TesterPresent, timeout, mismatch, "
+        "malformed, connection error, negative reply) with alternating ANALYZE tags; implicit-logging toggles; a failing run. Schedules: database "
+        "completions early/late (<= 1, thorough 2 deviations) and one cancellation of the run at every iteration boundary, then complete_run_meta + "
+        "disconnect. Checked on the database file: one row per completed exchange while implicit logging is on, in transmission order, exact request "
+        "and reply bytes (or NULL), exception column set iff the request raised and naming the class, request_time = transmission time <= response_time, "
+        "response_time present whenever reply bytes are, state = client state before the request (reference state machine), log_mode, no 'Could not "
+        "log' warning, run_meta completed, shutdown terminates.",
+        "note": "Trusted: sqlite3, the FIFO model of aiosqlite's worker, the reference state rules, vf/ref/iso14229.py generators. An exchange in flight at "
+        "the moment of cancellation may or may not be recorded. Not covered: sqlite OperationalError retry loop, more than one cancellation.",
     },
 ]
 
